@@ -1,7 +1,7 @@
 """C16: address preference sorting loses nothing and puts the preferred family first (level: other)."""
 import itertools
 import re
-from core import (norm, L_call, L_variant, arms, assigns_to_return, closure_arg_of, sig, const_of, awaits, CallSite, AbsPaths, returned_comparison)
+from core import (norm, L_call, L_variant, arms, assigns_to_return, closure_arg_of, sig, const_of, awaits, CallSite, AbsPaths, returned_comparison, L_opt)
 from mir import op_place
 import c11
 
@@ -228,9 +228,16 @@ def C16_4_5(ctx, facts):
     so = g.calls(SP)
     ctx.floor("connecting|sort_preferred", len(so), 1, "sort_preferred call")
     for c in so:
-        ok, w = g.guarded(c.bb, lambda lab: lab.kind == "bool" and lab.value is True and lab.cond.kind == "call" and lab.cond.site.matches(r"Option.*::is_some$") and
-                          any("happy_eyeballs_timeout" in r.desc for r in g.roots(lab.cond.site.args[0]) if r.kind == "arg"))
+        he = lambda rr: any("happy_eyeballs_timeout" in r.desc for r in rr if r.kind == "arg")
+        ok, w = g.guarded(c.bb, L_opt(g, True, he))
         ctx.check(ok, "connecting|sort-when-happy-eyeballs", "addresses are sorted by preference when happy eyeballs is enabled", "sort_preferred not tied to happy_eyeballs_timeout.is_some()", c.where(), g.path_desc(w))
+        # and the converse: with happy eyeballs enabled nothing else (list length, ...) lets the sort be skipped
+        some_edges = g.edges_where(L_opt(g, True, he))
+        ctx.floor("connecting|happy-eyeballs-test", len(some_edges), 1, "edges on which happy_eyeballs_timeout is known to be Some")
+        for (a, b) in some_edges:
+            ok3, w3 = g.must_pass(b, g.returns, {c.bb})
+            ctx.check(ok3, "connecting|sort-whenever-happy-eyeballs", "with happy eyeballs enabled the addresses are always sorted, whatever the list looks like",
+                      "with happy eyeballs enabled the sort can still be skipped (a further condition guards it): short lists would start in resolver order", c.where(), g.path_desc(w3))
         rr = g.roots(c.args[1], through_calls=False)
         fb = [r.site for r in rr if r.kind == "call" and r.site.is_("client::conn::dns::IpVersion::from_binding")]
         ok2 = bool(fb)
